@@ -100,7 +100,9 @@ def run_property(pid, tier, seed):
     # the verification cone: seeds plus, transitively, every contract applied at a call site / lemma used
     gens, done, todo = [], set(), list(keys)
     while todo:
-        with ctx.Pool(min(16, max(1, len(todo)))) as pool:
+        # one freshly forked process per key: the z3 context (and with it the order of declarations in the SMT-LIB text) then has the
+        # same history for a key in every run, whatever else is being generated
+        with ctx.Pool(min(16, max(1, len(todo))), maxtasksperchild=1) as pool:
             batch = pool.map(_gen_worker, todo, chunksize=1)
         done |= set(todo)
         gens += batch
